@@ -90,7 +90,9 @@ def runDeferred : Nat → St → List (Nat × Int) → List (String × Int) → 
   | _ + 1, st, [], acc => (st, acc, false)
   | fuel + 1, st, e :: rest, acc =>
     let (st, cbs, more) := runOne st [e] []
-    runDeferred fuel st (rest ++ more) (acc ++ cbs)
+    -- events deferred by a deferred transaction run before the remaining ones of the outer queue: the
+    -- nested `end_of_transaction` drains the `post` queue itself (depth-first, as in M_txn's `trace`)
+    runDeferred fuel st (more ++ rest) (acc ++ cbs)
 
 /-- the outermost transaction closes -/
 def closeTxn (st : St) : St × String :=
